@@ -27,7 +27,8 @@ With spec["res"] = True the result is wrapped in  res  (Model/Loop.v):
 parameter (fuel : nat).
 
 Types: Z (int), OZ (int | None), B (bool), IVL (an Interval), OIVL (Interval | None),
-LIST (= L:IVL, a stream of Intervals), L:T (a list/stream of T), NONE (the literal None before
+LIST (= L:IVL, a stream of Intervals), L:T (a list/stream of T), O:T (T | None, only tested
+against None), NONE (the literal None before
 unification), U (unit), plus the types a spec declares (spec["types"]: name -> Coq type;
 spec["tyvars"]: implicit type parameters; spec["enums"]: name -> (eqb, {string literal: constructor})).
 A type is never guessed: an expression whose type is not determined is Unsupported.
@@ -173,14 +174,14 @@ class Tr:
 
     # ---------------------------------------------------------------- types
     def is_type(self, t):
-        return isinstance(t, str) and (t in self.types or (t.startswith("L:") and self.is_type(t[2:])))
+        return isinstance(t, str) and (t in self.types or (t[:2] in ("L:", "O:") and self.is_type(t[2:])))
 
     def coq_type(self, t):
         if t in self.types:
             return self.types[t]
-        if t.startswith("L:"):
+        if t[:2] in ("L:", "O:"):
             inner = self.coq_type(t[2:])
-            return "list " + (inner if " " not in inner else f"({inner})")
+            return ("list " if t[0] == "L" else "option ") + (inner if " " not in inner else f"({inner})")
         raise Unsupported(f"type {t}")
 
     def item_of(self, t):
@@ -410,7 +411,7 @@ class Tr:
             if not (isinstance(rhs, ast.Constant) and rhs.value is None):
                 raise Unsupported("is / is not with something other than None")
             t, ty = self.expr0(e.left, env)
-            if ty in OPT:
+            if ty in OPT or ty.startswith("O:"):
                 r = f"(is_none {t})"
             elif ty in ("Z", "IVL"):
                 r = "false"
